@@ -87,7 +87,7 @@ func parseCall(text string) parsedCall {
 		return parsedCall{}
 	}
 	rest, _ := readAll(dec)
-	if len(bytes.TrimSpace(rest)) != 0 || dec.More() {
+	if len(trimJSONSpace(rest)) != 0 || dec.More() {
 		return parsedCall{}
 	}
 	if v == nil {
@@ -98,6 +98,10 @@ func parseCall(text string) parsedCall {
 		return parsedCall{}
 	}
 	pc := parsedCall{ok: true}
+	// duplicate members (also ones differing only in case) are outside what the statements determine
+	if hasDuplicateKeys([]byte(text)) {
+		pc.ambiguous = true
+	}
 	// members whose names differ from the protocol's only by case, or that are
 	// JSON null where a string/bool is expected, are outside what the
 	// statements determine
@@ -397,7 +401,7 @@ func normReply(chunk []byte) (ReplyModel, error) {
 		return ReplyModel{}, fmt.Errorf("not valid JSON: %v", err)
 	}
 	rest, _ := readAll(dec)
-	if len(bytes.TrimSpace(rest)) != 0 {
+	if len(trimJSONSpace(rest)) != 0 {
 		return ReplyModel{}, fmt.Errorf("trailing bytes after the JSON value")
 	}
 	obj, ok := v.(map[string]interface{})
